@@ -147,7 +147,7 @@ def loopStep (s : State) : Option State :=
   | .closeSpin h r =>    -- 137, 155-156
     if (s.hs h).busy = 0 then
       some { setH s h { s.hs h with unlinked := true } with
-             lpc := r.toPc, queue := s.queue.erase h, handles := s.handles.erase h }
+             lpc := r.toPc, queue := s.queue.filter (· != h), handles := s.handles.filter (· != h) }   -- uv__queue_remove: the node leaves whichever list it is on
     else none
 
 def LPc.ret? : LPc → Option LRet
